@@ -138,6 +138,23 @@ func (r *Report) Finish(verifDir string, writeEvidence bool) int {
 			kn[k.Rule+" "+k.Construct] = k
 		}
 	}
+	// one obligation per (rule, construct): duplicates (several dataflow states) keep the worst verdict
+	{
+		rank := map[Verdict]int{Holds: 0, Exempt: 0, Known: 1, Undecided: 2, Violated: 3}
+		byKey := map[string]int{}
+		var uniq []Obligation
+		for _, o := range r.Obls {
+			if i, ok := byKey[o.Key()]; ok {
+				if rank[o.Verdict] > rank[uniq[i].Verdict] {
+					uniq[i] = o
+				}
+				continue
+			}
+			byKey[o.Key()] = len(uniq)
+			uniq = append(uniq, o)
+		}
+		r.Obls = uniq
+	}
 	sort.SliceStable(r.Obls, func(i, j int) bool {
 		a, b := r.Obls[i], r.Obls[j]
 		if a.Rule != b.Rule {
